@@ -1,43 +1,7 @@
 import Dlismodel.Model.Api
 namespace Dlis
 
-/-! ### copy numbers -/
-
-/-- every item's copy number is the number of earlier items of the same set with the same name -/
-def CopyInv (items : List Item) : Prop :=
-  ∀ i (h : i < items.length),
-    items[i].copy = ((items.take i).filter (fun it => it.key = items[i].key)).countP (fun it => it.name = items[i].name)
-
-theorem CopyInv_nil : CopyInv [] := by intro i h; simp at h
-
-theorem CopyInv_append (items : List Item) (x : Item) (h : CopyInv items)
-    (hx : x.copy = (items.filter (fun it => it.key = x.key)).countP (fun it => it.name = x.name)) :
-    CopyInv (items ++ [x]) := by
-  intro i hi
-  by_cases hlt : i < items.length
-  · have e1 : (items ++ [x])[i] = items[i] := List.getElem_append_left hlt
-    have e2 : (items ++ [x]).take i = items.take i := by
-      rw [List.take_append_of_le_length (by omega)]
-    rw [e1, e2]; exact h i hlt
-  · have hi' : i = items.length := by simp at hi; omega
-    subst hi'
-    have e1 : (items ++ [x])[items.length] = x := by simp
-    have e2 : (items ++ [x]).take items.length = items := by simp
-    rw [e1, e2]; exact hx
-
-theorem CopyInv_map (items : List Item) (f : Item → Item) (h : CopyInv items)
-    (hk : ∀ it, (f it).key = it.key) (hn : ∀ it, (f it).name = it.name) (hc : ∀ it, (f it).copy = it.copy) :
-    CopyInv (items.map f) := by
-  intro i hi
-  have hi' : i < items.length := by simpa using hi
-  have e1 : (items.map f)[i] = f items[i] := by simp
-  rw [e1, hc, hk, hn, ← List.map_take, List.filter_map, List.countP_map]
-  have := h i hi'
-  rw [this]
-  congr 1
-  · funext it; simp [Function.comp, hn]
-  · congr 1
-    funext it; simp [Function.comp, hk]
+/-! ### helpers -/
 
 theorem countP_take_lt (items : List Item) (p : Item → Bool) (i j : Nat) (hij : i < j) (_hj : j ≤ items.length)
     (hi : i < items.length) (hp : p items[i] = true) :
@@ -54,71 +18,10 @@ theorem countP_take_lt (items : List Item) (p : Item → Bool) (i j : Nat) (hij 
   rw [hne, List.countP_cons_of_pos hp]
   omega
 
-/-- C07: same-named objects of one set get distinct copy numbers -/
-theorem copy_unique (items : List Item) (h : CopyInv items) (i j : Nat) (hi : i < items.length) (hj : j < items.length)
-    (hij : i ≠ j) (hk : items[i].key = items[j].key) (hn : items[i].name = items[j].name) :
-    items[i].copy ≠ items[j].copy := by
-  have key : ∀ a b (ha : a < items.length) (hb : b < items.length), a < b → items[a].key = items[b].key →
-      items[a].name = items[b].name → items[a].copy < items[b].copy := by
-    intro a b ha hb hab hk' hn'
-    rw [h a ha, h b hb, hk', hn']
-    rw [List.countP_filter, List.countP_filter]
-    exact countP_take_lt items (fun it => decide (it.name = items[b].name) && decide (it.key = items[b].key))
-      a b hab (by omega) ha (by simp [hk', hn'])
-  rcases Nat.lt_or_gt_of_ne hij with hlt | hgt
-  · exact Nat.ne_of_lt (key i j hi hj hlt hk hn)
-  · exact (Nat.ne_of_lt (key j i hj hi hgt hk.symm hn.symm)).symm
-
 @[simp] theorem touchKey_items (w : World) (lf : Nat) (k : Key) : (touchKey w lf k).items = w.items := rfl
 @[simp] theorem touchKey_headerOrigin (w : World) (lf : Nat) (k : Key) :
     (touchKey w lf k).headerOrigin = w.headerOrigin := rfl
 @[simp] theorem appendItem_items (w : World) (it : Item) : (appendItem w it).items = w.items ++ [it] := rfl
-
-theorem backfill_CopyInv (w : World) (lf : Nat) (r : Int) (h : CopyInv w.items) : CopyInv (backfill w lf r).items := by
-  unfold backfill
-  apply CopyInv_map _ _ h
-  · intro it; split <;> rfl
-  · intro it; split <;> rfl
-  · intro it; split <;> rfl
-
-/-- the invariant holds in every reachable state -/
-theorem step_CopyInv (w : World) (op : Op) (h : CopyInv w.items) : CopyInv (step w op).items := by
-  cases op with
-  | item lf kind sn0 name oref out =>
-    simp only [step]
-    generalize normName sn0 = sn
-    split
-    · exact h
-    · unfold addItem
-      cases out
-      · simp only [appendItem_items, touchKey_items]
-        apply CopyInv_append _ _ h
-        simp [copyNumber, itemsOfKey, Item.key]
-      · exact h
-      · exact h
-  | origin lf sn0 name oref out =>
-    simp only [step, addOrigin]
-    generalize normName sn0 = sn
-    split
-    · exact h
-    · rename_i r _
-      cases out
-      · have happ : CopyInv (appendItem (touchKey w lf (0, sn))
-            (Item.mk lf 0 sn name (some r) (copyNumber w (0, sn) name))).items := by
-          simp only [appendItem_items, touchKey_items]
-          apply CopyInv_append _ _ h
-          simp [copyNumber, itemsOfKey, Item.key]
-        simp only
-        split
-        · exact backfill_CopyInv _ _ _ happ
-        · exact happ
-      · exact h
-      · exact h
-
-theorem run_CopyInv (w : World) (ops : List Op) (h : CopyInv w.items) : CopyInv (run w ops).items := by
-  induction ops generalizing w with
-  | nil => exact h
-  | cons op ops ih => exact ih (step w op) (step_CopyInv w op h)
 
 /-! ### a rejected call -/
 
@@ -159,10 +62,10 @@ theorem rejected_keeps_items (w : World) (op : Op) (h : op.rejected = true) :
     · simp
     · cases out <;> simp_all
 
-/-- the copy number given to a later object depends on the registered objects only -/
-theorem copyNumber_items (w w' : World) (h : w.items = w'.items) (k : Key) (n : PStr) :
-    copyNumber w k n = copyNumber w' k n := by
-  simp [copyNumber, itemsOfKey, h]
+/-- the copy number given to a later object depends on the registered objects and the registries only -/
+theorem copyNumber_congr (w w' : World) (h : w.items = w'.items) (hk : w.keys = w'.keys) (lf kind : Nat)
+    (sn : Option PStr) (n : PStr) : copyNumber w lf kind sn n = copyNumber w' lf kind sn n := by
+  simp [copyNumber, lfKeys, touchKey, h, hk]
 
 end Dlis
 
@@ -318,7 +221,7 @@ theorem step_RegInv (w : World) (op : Op) (hlf : op.lf < w.keys.length) (h : Reg
     · cases out
       · simp only
         have ha : RegInv (appendItem (touchKey w lf (0, sn))
-            (Item.mk lf 0 sn name (some ‹Int›) (copyNumber w (0, sn) name))) := by
+            (Item.mk lf 0 sn name (some ‹Int›) (copyNumber w lf 0 sn name))) := by
           apply RegInv_append _ _ ht
           simp only [Item.key]
           rw [lfKeys_touch w lf lf (0, sn) hlf]
@@ -339,24 +242,207 @@ theorem RegInv_init (n : Nat) : RegInv (World.init n) := by
     · simp [h]
   · intro it hit; simp [World.init] at hit
 
+/-! ### copy numbers -/
+
+/-- (bound) an object's copy number is at most the number of earlier objects of its type and name that its logical
+file has registered by now; (mono) the objects of one type and name added through one logical file have increasing
+copy numbers -/
+structure CopyInv (w : World) : Prop where
+  bound : ∀ i (h : i < w.items.length),
+    w.items[i].copy ≤ (w.items.take i).countP (fun x => decide (x.kind = w.items[i].kind) &&
+      decide (x.key ∈ lfKeys w w.items[i].lf) && decide (x.name = w.items[i].name))
+  mono : ∀ i j (hi : i < w.items.length) (hj : j < w.items.length), i < j → w.items[i].lf = w.items[j].lf →
+    w.items[i].kind = w.items[j].kind → w.items[i].name = w.items[j].name → w.items[i].copy < w.items[j].copy
+
+theorem CopyInv_init (n : Nat) : CopyInv (World.init n) := by
+  constructor
+  · intro i h; simp [World.init] at h
+  · intro i j hi; simp [World.init] at hi
+
+/-- C07: same-named objects of one type added through one logical file get distinct copy numbers — whatever sets of
+that type they are in -/
+theorem copy_unique (w : World) (h : CopyInv w) (i j : Nat) (hi : i < w.items.length) (hj : j < w.items.length)
+    (hij : i ≠ j) (hl : w.items[i].lf = w.items[j].lf) (hk : w.items[i].kind = w.items[j].kind)
+    (hn : w.items[i].name = w.items[j].name) : w.items[i].copy ≠ w.items[j].copy := by
+  rcases Nat.lt_or_gt_of_ne hij with hlt | hgt
+  · exact Nat.ne_of_lt (h.mono i j hi hj hlt hl hk hn)
+  · exact (Nat.ne_of_lt (h.mono j i hj hi hgt hl.symm hk.symm hn.symm)).symm
+
+theorem copyNumber_eq (w : World) (lf kind : Nat) (sn : Option PStr) (name : PStr) :
+    copyNumber w lf kind sn name = w.items.countP (fun x => decide (x.kind = kind) &&
+      decide (x.key ∈ lfKeys (touchKey w lf (kind, sn)) lf) && decide (x.name = name)) := by
+  unfold copyNumber
+  rw [List.countP_filter]
+  congr 1
+  funext x
+  simp [Bool.and_comm, Bool.and_assoc]
+
+/-- registering a set only adds to what a logical file sees -/
+theorem lfKeys_touch_mono (w : World) (lf lf' : Nat) (k x : Key) (h : x ∈ lfKeys w lf) :
+    x ∈ lfKeys (touchKey w lf' k) lf := by
+  by_cases hl : lf' < w.keys.length
+  · rw [lfKeys_touch w lf lf' k hl]
+    split
+    · exact (mem_insertKey _ _ _).mpr (Or.inr h)
+    · exact h
+  · have : touchKey w lf' k = w := by
+      unfold touchKey
+      have : w.keys.modify lf' (fun ks => insertKey ks k) = w.keys := by
+        apply List.ext_getElem?
+        intro n
+        rw [List.getElem?_modify]
+        by_cases e : lf' = n
+        · subst e; simp [List.getElem?_eq_none (by omega : w.keys.length ≤ lf')]
+        · simp [e]
+      rw [this]
+    rw [this]; exact h
+
+theorem CopyInv_append (w : World) (lf kind : Nat) (sn : Option PStr) (name : PStr) (o : Option Int)
+    (hlf : lf < w.keys.length) (hr : RegInv w) (h : CopyInv w) :
+    CopyInv (appendItem (touchKey w lf (kind, sn)) (Item.mk lf kind sn name o (copyNumber w lf kind sn name))) := by
+  have hlen : (appendItem (touchKey w lf (kind, sn)) (Item.mk lf kind sn name o (copyNumber w lf kind sn name))).items =
+      w.items ++ [Item.mk lf kind sn name o (copyNumber w lf kind sn name)] := rfl
+  have hkeys : ∀ l, lfKeys (appendItem (touchKey w lf (kind, sn)) (Item.mk lf kind sn name o (copyNumber w lf kind sn name))) l =
+      lfKeys (touchKey w lf (kind, sn)) l := fun _ => rfl
+  constructor
+  · intro i hi
+    simp only [hlen] at hi ⊢
+    simp only [hkeys]
+    by_cases hlt : i < w.items.length
+    · have e1 : (w.items ++ [Item.mk lf kind sn name o (copyNumber w lf kind sn name)])[i] = w.items[i] :=
+        List.getElem_append_left hlt
+      have e2 : (w.items ++ [Item.mk lf kind sn name o (copyNumber w lf kind sn name)]).take i = w.items.take i := by
+        rw [List.take_append_of_le_length (by omega)]
+      rw [e1, e2]
+      refine Nat.le_trans (h.bound i hlt) ?_
+      apply List.countP_mono_left
+      intro x _ hx
+      simp only [Bool.and_eq_true, decide_eq_true_eq] at hx ⊢
+      exact ⟨⟨hx.1.1, lfKeys_touch_mono w _ lf _ _ hx.1.2⟩, hx.2⟩
+    · have hi' : i = w.items.length := by simp at hi; omega
+      subst hi'
+      have e1 : (w.items ++ [Item.mk lf kind sn name o (copyNumber w lf kind sn name)])[w.items.length] =
+          Item.mk lf kind sn name o (copyNumber w lf kind sn name) := by simp
+      have e2 : (w.items ++ [Item.mk lf kind sn name o (copyNumber w lf kind sn name)]).take w.items.length = w.items := by simp
+      rw [e1, e2, copyNumber_eq]
+      exact Nat.le_refl _
+  · intro i j hi hj hij hl hk hn
+    simp only [hlen] at hi hj hl hk hn ⊢
+    by_cases hjl : j < w.items.length
+    · have hil : i < w.items.length := by omega
+      have ei : (w.items ++ [Item.mk lf kind sn name o (copyNumber w lf kind sn name)])[i] = w.items[i] :=
+        List.getElem_append_left hil
+      have ej : (w.items ++ [Item.mk lf kind sn name o (copyNumber w lf kind sn name)])[j] = w.items[j] :=
+        List.getElem_append_left hjl
+      rw [ei, ej] at hl hk hn ⊢
+      exact h.mono i j hil hjl hij hl hk hn
+    · have hj' : j = w.items.length := by simp at hj; omega
+      subst hj'
+      have hil : i < w.items.length := hij
+      have ei : (w.items ++ [Item.mk lf kind sn name o (copyNumber w lf kind sn name)])[i] = w.items[i] :=
+        List.getElem_append_left hil
+      have ej : (w.items ++ [Item.mk lf kind sn name o (copyNumber w lf kind sn name)])[w.items.length] =
+          Item.mk lf kind sn name o (copyNumber w lf kind sn name) := by simp
+      rw [ei, ej] at hl hk hn ⊢
+      simp only at hl hk hn ⊢
+      rw [copyNumber_eq]
+      -- the earlier object is itself among those counted for the new one
+      have hp : (fun x : Item => decide (x.kind = kind) && decide (x.key ∈ lfKeys (touchKey w lf (kind, sn)) lf) &&
+          decide (x.name = name)) w.items[i] = true := by
+        simp only [Bool.and_eq_true, decide_eq_true_eq]
+        refine ⟨⟨hk, ?_⟩, hn⟩
+        have := hr.itemKey w.items[i] (List.getElem_mem hil)
+        rw [hl] at this
+        exact lfKeys_touch_mono w lf lf _ _ this
+      have hlt := countP_take_lt w.items (fun x : Item => decide (x.kind = kind) &&
+          decide (x.key ∈ lfKeys (touchKey w lf (kind, sn)) lf) && decide (x.name = name)) i w.items.length hil
+          (Nat.le_refl _) hil hp
+      rw [List.take_length] at hlt
+      refine Nat.lt_of_le_of_lt ?_ hlt
+      refine Nat.le_trans (h.bound i hil) ?_
+      apply List.countP_mono_left
+      intro x _ hx
+      simp only [Bool.and_eq_true, decide_eq_true_eq] at hx ⊢
+      refine ⟨⟨hx.1.1.trans hk, ?_⟩, hx.2.trans hn⟩
+      have := hx.1.2
+      rw [hl] at this
+      exact lfKeys_touch_mono w lf lf _ _ this
+
+theorem CopyInv_backfill (w : World) (lf : Nat) (r : Int) (h : CopyInv w) : CopyInv (backfill w lf r) := by
+  have hf : ∀ it : Item, ((if it.origin.isNone ∧ it.key ∈ lfKeys w lf then { it with origin := some r } else it).kind = it.kind ∧
+      (if it.origin.isNone ∧ it.key ∈ lfKeys w lf then { it with origin := some r } else it).key = it.key ∧
+      (if it.origin.isNone ∧ it.key ∈ lfKeys w lf then { it with origin := some r } else it).name = it.name ∧
+      (if it.origin.isNone ∧ it.key ∈ lfKeys w lf then { it with origin := some r } else it).copy = it.copy ∧
+      (if it.origin.isNone ∧ it.key ∈ lfKeys w lf then { it with origin := some r } else it).lf = it.lf) := by
+    intro it; split <;> exact ⟨rfl, rfl, rfl, rfl, rfl⟩
+  have hkeys : ∀ l, lfKeys (backfill w lf r) l = lfKeys w l := fun _ => rfl
+  constructor
+  · intro i hi
+    have hi' : i < w.items.length := by simpa [backfill] using hi
+    simp only [backfill, List.getElem_map, ← List.map_take, List.countP_map, hkeys]
+    obtain ⟨h1, h2, h3, h4, h5⟩ := hf w.items[i]
+    rw [h1, h3, h4, h5]
+    refine Nat.le_trans (h.bound i hi') (Nat.le_of_eq ?_)
+    congr 1
+    funext x
+    obtain ⟨g1, g2, g3, _, _⟩ := hf x
+    simp only [Function.comp, g1, g2, g3]
+    rfl
+  · intro i j hi hj hij hl hk hn
+    have hi' : i < w.items.length := by simpa [backfill] using hi
+    have hj' : j < w.items.length := by simpa [backfill] using hj
+    simp only [backfill, List.getElem_map] at hl hk hn ⊢
+    obtain ⟨a1, _, a3, a4, a5⟩ := hf w.items[i]
+    obtain ⟨b1, _, b3, b4, b5⟩ := hf w.items[j]
+    rw [a5, b5] at hl; rw [a1, b1] at hk; rw [a3, b3] at hn
+    rw [a4, b4]
+    exact h.mono i j hi' hj' hij hl hk hn
+
+/-- the invariant holds in every reachable state -/
+theorem step_CopyInv (w : World) (op : Op) (hlf : op.lf < w.keys.length) (hr : RegInv w) (h : CopyInv w) :
+    CopyInv (step w op) := by
+  cases op with
+  | item lf kind sn0 name oref out =>
+    simp only [Op.lf] at hlf
+    simp only [step]
+    generalize normName sn0 = sn
+    split
+    · exact h
+    · unfold addItem
+      cases out
+      · exact CopyInv_append w lf kind sn name _ hlf hr h
+      · exact h
+      · exact h
+  | origin lf sn0 name oref out =>
+    simp only [Op.lf] at hlf
+    simp only [step, addOrigin]
+    generalize normName sn0 = sn
+    split
+    · exact h
+    · rename_i r _
+      cases out
+      · have happ := CopyInv_append w lf 0 sn name (some r) hlf hr h
+        simp only
+        split
+        · exact CopyInv_backfill _ _ _ happ
+        · exact happ
+      · exact h
+      · exact h
+
 /-- all histories of valid calls keep the registries consistent and the copy numbers right -/
 theorem run_invariants (n : Nat) (ops : List Op) (hv : ∀ op ∈ ops, op.lf < n) :
-    RegInv (run (World.init n) ops) ∧ CopyInv (run (World.init n) ops).items := by
-  suffices H : ∀ w, w.keys.length = n → RegInv w → CopyInv w.items → RegInv (run w ops) ∧ CopyInv (run w ops).items from
-    H _ (by simp [World.init]) (RegInv_init n) (by simp [World.init]; exact CopyInv_nil)
+    RegInv (run (World.init n) ops) ∧ CopyInv (run (World.init n) ops) := by
+  suffices H : ∀ w, w.keys.length = n → RegInv w → CopyInv w → RegInv (run w ops) ∧ CopyInv (run w ops) from
+    H _ (by simp [World.init]) (RegInv_init n) (CopyInv_init n)
   induction ops with
   | nil => intro w _ h1 h2; exact ⟨h1, h2⟩
   | cons op ops ih =>
-    intro w hn h1 h2
-    have hop := hv op (by simp)
-    exact ih (fun o ho => hv o (by simp [ho])) (step w op) (by rw [keys_length_step, hn])
-      (step_RegInv w op (by omega) h1) (step_CopyInv w op h2)
+    intro w hw h1 h2
+    have hop : op.lf < w.keys.length := by rw [hw]; exact hv op (by simp)
+    exact ih (fun o ho => hv o (by simp [ho])) (step w op) (by rw [keys_length_step]; exact hw)
+      (step_RegInv w op hop h1) (step_CopyInv w op hop h1 h2)
 
-end Dlis
-
-namespace Dlis
-
-/-! ### what a write emits -/
+/-! ### C18: logical files are isolated -/
 
 def NoShared (w : World) : Prop :=
   ∀ a b, a < b → b < w.keys.length → ∀ k, k ∈ lfKeys w a → k ∈ lfKeys w b → itemsOfKey w k = []
